@@ -445,7 +445,9 @@ fn hqr2<T: RealNumber, M: BaseMatrix<T>>(A: &mut M, V: &mut M, d: &mut [T], e: &
                 if s == T::zero() {
                     s = anorm;
                 }
-                if A.get(l, l - 1).abs() <= T::epsilon() * s {
+                if A.get(l, l - 1).abs() <= T::epsilon() * s
+                    || (its >= 10 && A.get(l, l - 1).abs() <= T::epsilon() * anorm)
+                {
                     A.set(l, l - 1, T::zero());
                     break;
                 }
@@ -512,10 +514,10 @@ fn hqr2<T: RealNumber, M: BaseMatrix<T>>(A: &mut M, V: &mut M, d: &mut [T], e: &
                         nn -= 2;
                     }
                 } else {
-                    if its == 30 {
+                    if its == 30 * n {
                         panic!("Too many iterations in hqr");
                     }
-                    if its == 10 || its == 20 {
+                    if its > 0 && its % 10 == 0 {
                         t += x;
                         for i in 0..nn + 1 {
                             A.sub_element_mut(i, i, x);
